@@ -9,12 +9,14 @@ from tf_pwa.data import data_split
 def split_gls(dec_chain):
     gls = [i.get_ls_list() for i in dec_chain]
     ls_combination = list(itertools.product(*gls))
-    for i in ls_combination:
-        for gi, j in zip(i, dec_chain):
-            j.set_ls([gi])
-        yield i, dec_chain
-    for j, g in zip(dec_chain, gls):
-        j.set_ls(g)
+    try:
+        for i in ls_combination:
+            for gi, j in zip(i, dec_chain):
+                j.set_ls([gi])
+            yield i, dec_chain
+    finally:
+        for j, g in zip(dec_chain, gls):
+            j.set_ls(g)
 
 
 def build_sum_amplitude(dg, dec_chain, data):
